@@ -253,13 +253,7 @@ theorem inv_serviceResponse (reqs : List Req) (servers : List Server) (arrived :
       split
       · exact h
       · split
-        · split
-          · split
-            · split
-              · exact inv_handle reqs servers s _ h hw hps
-              · exact inv_finish reqs _ none [] true (inv_consume reqs s rp false h hw hps) hw rfl (fun hc => absurd hc (by decide))
-            · exact inv_outcome reqs s .stuck h
-          · exact inv_handle reqs servers s _ h hw hps
+        · exact inv_handle reqs servers s _ h hw hps
         · split
           · split
             · split
@@ -367,13 +361,7 @@ theorem sec_serviceResponse (w0 : List Sent) (servers : List Server) (arrived : 
     · split
       · exact h
       · split
-        · split
-          · split
-            · split
-              · exact sec_handle w0 servers s _ h
-              · exact sec_congr w0 s _ h rfl rfl
-            · exact sec_congr w0 s _ h rfl rfl
-          · exact sec_handle w0 servers s _ h
+        · exact sec_handle w0 servers s _ h
         · split
           · split
             · split
